@@ -10,7 +10,7 @@
 import argparse, json, os, subprocess, sys, shutil, tempfile, xml.etree.ElementTree as ET
 ap = argparse.ArgumentParser()
 ap.add_argument("dir"); ap.add_argument("--tests", action="store_true"); ap.add_argument("--tier", default="quick")
-ap.add_argument("--also", default="")
+ap.add_argument("--also", default=""); ap.add_argument("--no-checks", action="store_true")
 a = ap.parse_args()
 d = os.path.abspath(a.dir); sid = os.path.basename(d); pid = sid.split("-")[0]
 wt = "/tmp/vet-" + sid
@@ -50,7 +50,7 @@ try:
                 res["tests_error"] = repr(e)
             missing = sorted(set(base["stable_pass"]) - passed)
             res["suite_regressions"] = missing[:10]; res["suite_ok"] = not missing
-        checks = [pid] + [c for c in a.also.split(",") if c]
+        checks = [] if a.no_checks else [pid] + [c for c in a.also.split(",") if c]
         res["checks"] = {}
         for c in checks:
             rc, out = run(f"./check {c} --tier {a.tier} --no-evidence", env={"PYTHONPATH": wt}, cwd="/verif", timeout=3000)
